@@ -77,7 +77,7 @@ BIG_TAILS_BAD = {"unknownsyscall": "  - action: errno\n    names:\n    - verif_n
                  "unknownaction": "  - action: permit\n    names:\n    - security\n"}
 
 
-def run_sandbox(d, scratch, fault, idx, nnp=True, uid=0, strace=False, policy_text=None, probes=None, fatal=None):
+def run_sandbox(d, scratch, fault, idx, nnp=True, uid=0, strace=False, policy_text=None, probes=None, fatal=None, policy_path=None):
     pol = os.path.join(scratch, "pol_%s_%d.yml" % (fault, idx))
     with open(pol, "w") as f:
         f.write(policy_text or policy_for(fault))
@@ -91,6 +91,8 @@ def run_sandbox(d, scratch, fault, idx, nnp=True, uid=0, strace=False, policy_te
         args.append("-no-new-privs=false")
     if fault == "nofile":
         args[2] = os.path.join(scratch, "does-not-exist.yml")
+    if policy_path:
+        args[2] = policy_path
     if fault == "unreadable":
         os.chmod(pol, 0o600)
         uid = 65534
@@ -223,6 +225,20 @@ def check(ctx, replay=None):
                             viol("the target's output is unreadable: %s" % e, res)
                 if use_strace and res["strace"] and os.path.exists(res["strace"]):
                     traces.append((eff_fault, strace_events(res["strace"], os.path.basename(res["target"]), eff_fault), res))
+    # "the file is missing / cannot be read", realised in more ways than a missing name: the policy path is a directory, a file whose
+    # read fails (EIO from /proc/self/mem), an empty file, a path below a file (ENOTDIR), a dangling symbolic link
+    os.makedirs(os.path.join(scratch, "adir"), exist_ok=True)
+    open(os.path.join(scratch, "empty.yml"), "w").close()
+    if not os.path.islink(os.path.join(scratch, "dangling.yml")):
+        os.symlink(os.path.join(scratch, "nowhere.yml"), os.path.join(scratch, "dangling.yml"))
+    for what, path in (("a directory", os.path.join(scratch, "adir")), ("a file whose read fails", "/proc/self/mem"), ("an empty file", os.path.join(scratch, "empty.yml")),
+                       ("a path below a regular file", os.path.join(scratch, "empty.yml", "x.yml")), ("a dangling symbolic link", os.path.join(scratch, "dangling.yml"))):
+        idx += 1
+        res = run_sandbox(d, scratch, "none", idx, policy_path=path)
+        ctx.cov["evaluations"] += 1
+        ctx.cov["distinct_nontrivial"] += 1
+        if res is not None and (res["rc"] == 0 or res["marker"]):
+            viol("the policy path is %s: %s" % (what, "the target was started" if res["marker"] else "exit status 0"), res, {"policy": "(none: -policy %s)" % path})
     for where, text in UNKNOWN_VARIANTS.items():
         idx += 1
         res = run_sandbox(d, scratch, "none", idx, policy_text=text)
